@@ -15,8 +15,15 @@ do not contain c and all other Computes left out) followed by c.  Observed at
 ``Spec._get_flattened_architecture`` (all computes, and per compute by name) on the
 evaluated Spec and at ``Arch._flatten`` on the raw tree: names and node classes.
 
-SELFTEST (scratch copy /tmp/af-mut-c25, VERIF_REPO; quick tier)
-  see the end of this docstring (filled in after running the mutants).
+SELFTEST (scratch copy /tmp/af-mut-c25 of accelforge/, VERIF_REPO, quick tier; copy deleted afterwards)
+  M1 structure.py:Hierarchical._flatten  Fork without the compute no longer skipped
+     (`continue` -> `pass`)                                         caught  all-computes-query:raises (2834 trees)
+  M2 structure.py:_flatten  no `break` after the compute was found inside a nested
+     branch (`if any(` -> `if False and any(`)                      caught  all-computes-query:raises (5931)
+  M3 spec.py:_get_flattened_architecture  compute order reversed    caught  all:other-compute-included+...+target-missing (6037)
+  M4 structure.py:_flatten  nested Hierarchical without the compute skipped like a
+     Fork (`if isinstance(node, Fork)` -> `if True`)                caught  all:ancestor-missing (1422)
+  M5 structure.py:_flatten  every Compute met on the way appended   caught  all:other-compute-included (5143)
 """
 
 from __future__ import annotations
@@ -30,7 +37,7 @@ MANIFEST = {
             "computes before/after forks, nested hierarchies before/around the compute) is built with the real "
             "classes, evaluated, flattened for every compute and compared with a nested-list path search; right "
             "level because flattening is a structural recursion whose cases are all reached by trees of <= 6 nodes",
-    "note": "trusted: R-arch path search; bounds: nodes <= 6 depth <= 3 (quick) / nodes <= 8 depth <= 4 (thorough) "
+    "note": "trusted: R-arch path search; bounds: nodes <= 6 depth <= 3 (quick) / nodes <= 7 depth <= 4 (thorough) "
             "for shapes with rotated leaf kinds, nodes <= 4 / 6 for the full leaf-kind alphabet; Array and Network "
             "nodes are outside the property's grammar",
     "technique": "bounded exhaustive input enumeration (explicit-state) vs reference model",
@@ -66,6 +73,8 @@ def build_arch(tree, params=None):
 
 
 def _spatial(name, fanout):
+    if fanout == 6:  # two spatial dimensions on one node
+        return [{"name": f"d_{name}", "fanout": 2}, {"name": f"e_{name}", "fanout": 3}]
     return [{"name": f"d_{name}", "fanout": fanout}] if fanout != 1 else []
 
 
@@ -274,8 +283,7 @@ def run(ctx):
         _FAM["shapes-rot"] = dict(tokens=SHAPE_TOKENS, nodes=5, depth=3, rots=[1, 2])
         _FAM["kinds"] = dict(tokens=KIND_TOKENS, nodes=4, depth=3, rots=[0])
     else:
-        _FAM["shapes"] = dict(tokens=SHAPE_TOKENS, nodes=8, depth=4, rots=[0])
-        _FAM["shapes-rot"] = dict(tokens=SHAPE_TOKENS, nodes=7, depth=4, rots=[1, 2])
+        _FAM["shapes"] = dict(tokens=SHAPE_TOKENS, nodes=7, depth=4, rots=[0, 1, 2])
         _FAM["kinds"] = dict(tokens=KIND_TOKENS, nodes=6, depth=3, rots=[0])
     ctx.explore("trees", tree_fn, body, shard_depth=5, distinct_by_construction=False)
     ctx.bound(**{k: {"max_nodes": f["nodes"], "max_depth": f["depth"], "rotations": f["rots"],
